@@ -30,32 +30,9 @@ func errEdges(p *an.Prog, fn *ssa.Function, nilSide bool) an.EdgeCut {
 		if !ok {
 			continue
 		}
-		c := ifi.Cond
-		neg := false
-		for {
-			if u, ok := c.(*ssa.UnOp); ok && u.Op == token.NOT {
-				c = u.X
-				neg = !neg
-				continue
-			}
-			break
-		}
-		bo, ok := c.(*ssa.BinOp)
-		if !ok || (bo.Op != token.EQL && bo.Op != token.NEQ) {
+		nilWhenTrue, ok := errTestPolarity(ifi.Cond, 0)
+		if !ok {
 			continue
-		}
-		var other ssa.Value
-		if isNilConst(bo.Y) {
-			other = bo.X
-		} else if isNilConst(bo.X) {
-			other = bo.Y
-		}
-		if other == nil || !isErrorType(other.Type()) {
-			continue
-		}
-		nilWhenTrue := bo.Op == token.EQL
-		if neg {
-			nilWhenTrue = !nilWhenTrue
 		}
 		nilIdx := 1
 		if nilWhenTrue {
@@ -68,6 +45,64 @@ func errEdges(p *an.Prog, fn *ssa.Function, nilSide bool) an.EdgeCut {
 		}
 	}
 	return func(b *ssa.BasicBlock, i int) bool { return cut[edge{b, i}] }
+}
+
+// errTestPolarity: cond is a nil test of an error value - directly, negated, or remembered in a boolean that is joined
+// from such tests and from constants on the not-nil side only (`live = ctx.Err() == nil` on one arm, live left false
+// on the others: live implies that the test found nil). nilWhenTrue tells which outcome of cond means "was nil".
+func errTestPolarity(c ssa.Value, depth int) (nilWhenTrue, ok bool) {
+	if depth > 4 {
+		return false, false
+	}
+	switch x := c.(type) {
+	case *ssa.UnOp:
+		if x.Op == token.NOT {
+			r, ok := errTestPolarity(x.X, depth+1)
+			return !r, ok
+		}
+	case *ssa.BinOp:
+		if x.Op != token.EQL && x.Op != token.NEQ {
+			return false, false
+		}
+		var other ssa.Value
+		if isNilConst(x.Y) {
+			other = x.X
+		} else if isNilConst(x.X) {
+			other = x.Y
+		}
+		if other == nil || !isErrorType(other.Type()) {
+			return false, false
+		}
+		return x.Op == token.EQL, true
+	case *ssa.Phi:
+		if !isBoolT(x) {
+			return false, false
+		}
+		have := false
+		var consts []bool
+		for _, e := range x.Edges {
+			if bv, isB := constBool(e); isB {
+				consts = append(consts, bv)
+				continue
+			}
+			r, ok := errTestPolarity(e, depth+1)
+			if !ok || (have && r != nilWhenTrue) {
+				return false, false
+			}
+			nilWhenTrue, have = r, true
+		}
+		if !have {
+			return false, false
+		}
+		for _, bv := range consts {
+			if bv == nilWhenTrue {
+				// a constant on the "was nil" side: the boolean can say so without any test
+				return false, false
+			}
+		}
+		return nilWhenTrue, true
+	}
+	return false, false
 }
 
 // onlyAfterSuccess: every path from call to site goes through the nil side of an error test.
